@@ -150,7 +150,7 @@ def run(ctx):
     rng = ctx.rng
     ctx.rule = ("per system ~40 cases: random supplied sets (sufficient / insufficient, decided by an independent exact "
                 "rank computation on the Laue-invariant subspace); one supplied value perturbed by "
-                "{0,0.01,0.1,0.2,0.5,2,50} x sqrt(tol) (exact-residual cases within 1e-6 of the threshold are redrawn); "
+                "{0,0.01,0.1,0.2,0.5,1.1,1.2,2,50} x sqrt(tol) (1.1, 1.2: a supplied pair may disagree by more than sqrt(tol) and still be accepted - the output must then satisfy the relation, so values move) (exact-residual cases within 1e-6 of the threshold are redrawn); "
                 "all four flag combinations; int and float columns; temp cwd with a directory or a relations FILE named "
                 "like the system; user-written equivalent relations file given by relative and absolute path; "
                 "non-modulus columns incl. an all-zero one; tiny vanishing columns with two drop tolerances; bad labels; "
@@ -408,7 +408,7 @@ def run(ctx):
                 m = record(system, relname, cols, kwc, obs, scale, "subset", via=via)
                 oracle(cols, S, bx, kwc, obs, m)
             # --- B. perturbations of one redundant supplied value
-            for d_i, dmul in enumerate([0, 0.01, 0.1, 0.2, 0.5, 2, 50]):
+            for d_i, dmul in enumerate([0, 0.01, 0.1, 0.2, 0.5, 2, 50, 1.2, 1.1]):
                 if not nv or system == "triclinic":
                     break
                 for _try in range(20):
@@ -433,7 +433,7 @@ def run(ctx):
                         break
                 else:
                     continue
-                for kw in ([flags(0), flags(2)] if dmul in (2, 50) else [flags(d_i)]):
+                for kw in ([flags(0), flags(2)] if dmul in (2, 50) else [flags(0), flags(1)] if dmul in (1.2, 1.1) else [flags(d_i)]):
                     obs = call(mkdf(cols), system, kw)
                     m = record(system, relname, cols, kw, obs, scale, "perturb%g" % dmul,
                                extra=dict(perturbed=SYMS[i], delta=float(delta), exact_residual=float(res)))
